@@ -48,7 +48,7 @@ THEOREMS = [
 ]
 _LEXFILTER = os.path.join(core.LEAN, "PV", "C10", "LexFilter.lean")   # lexer model builder; imported by PV/C10/Thm.lean
 THEOREMS += ["PV.C10.full_lexer_filter", "PV.C10.softkw_commutes_filter_of_safe", "PV.C10.softkw_commutes_filter",
-             "PV.C10.softkw_commutes_filter_fails"]
+             "PV.C10.softkw_commutes_filter_failSrc"]
 
 TRUSTED = [
     "Lean 4.33.0 kernel; axioms limited to propext, Classical.choice, Quot.sound",
@@ -68,8 +68,9 @@ PARTIAL = [
     "parse-*): there is no theorem about the LALRPOP automaton behind the configuration-dependent front ends",
     "full-lexer: the token-level theorems full_lexer_filter / softkw_commutes_filter are about the lexer MODEL (lean/PV/Lexer, tied to "
     "lexer.rs by the C05 correspondence), proved in lean/PV/C10/LexFilter.lean"
-    "; softkw_commutes_filter holds only under the side condition SoftSafe: the `type` look-ahead of soft_keywords.rs stops at a "
-    "Comment/NonLogicalNewline token (softkw_commutes_filter_fails; known finding type-softkw-lookahead-sees-trivia-tokens)",
+    "; softkw_commutes_filter carries the side condition SoftSafe (the token right after a line-initial match/case/type is not a "
+    "Comment/NonLogicalNewline token); the former `type` look-ahead defect is repaired (commit e335017) and the model's look-ahead "
+    "skips trivia, so the type-loop clause is gone (softkw_commutes_filter_failSrc: the former counterexample now agrees)",
     "optional_range_erasure / mandatory_ranges_kept are about the model of tree construction (same grammar action, "
     "OptionalRange::new per configuration); that every grammar action builds optional ranges only through optional_range() is "
     "type-checked by rustc (EmptyRange vs TextRange), and fold_cfg_matches_schema re-checks the generated fold on every run",
@@ -291,25 +292,6 @@ def _numerals(rng, n):
     return list(dict.fromkeys(out))
 
 
-_TYPE_SHAPE = re.compile(r"(?m)^[ \t]*type[ \t]+\w+[ \t]*\[([^\n]*)\][ \t]*(#[^\n]*)?\r?\n")
-
-
-def classify(req, impl_out, model_out, failure):
-    """listed finding: with full-lexer the `type` look-ahead stops at a comment/blank-line token — only texts in which a
-    bracket opened inside the type-parameter brackets is still open at the end of the line (both builds reject, differently)"""
-    if not failure or "build full-lexer differs" not in failure:
-        return None
-    ws = req.split()
-    if ws[0] != "parse" or not impl_out.startswith("(err "):
-        return None
-    src = unhex(ws[2]).decode("utf-8", "replace")
-    for m in _TYPE_SHAPE.finditer(src):
-        inner = m.group(1)
-        if inner.count("(") + inner.count("{") + inner.count("[") > inner.count(")") + inner.count("}") + inner.count("]"):
-            return "type-softkw-lookahead-sees-trivia-tokens"
-    return None
-
-
 # ------------------------------------------------------------------ sources
 
 def _bin(features):
@@ -504,9 +486,10 @@ def streams(ctx):
                           harness={"bin": "pvh_c10", "features": b},
                           oracle=(lambda w: (lambda req, o: None if o == w else "binary reports %s, expected %s" % (o, w)))(want_cfg[b])))
 
-    # 1. listed finding, one deterministic probe
-    four_builds("known-finding-probe", [("m", "type X[(] # c\n= int)\n")], "directed",
-                note="the `type` soft-keyword look-ahead meets a Comment token")
+    # 1. regression probes of the repaired finding (commit e335017): a recurrence is a violation
+    four_builds("regression-probe", [("m", "type X[(] # c\n= int)\n"), ("m", "type X[T] = (  # c\n\n  int)\n"),
+                                     ("m", "type X[(]\n\n# c\n= int)\n")], "directed",
+                note="the `type` soft-keyword look-ahead meets Comment / NonLogicalNewline tokens")
 
     # 2. modelled operations, every build against the Lean model
     rng = ctx.rng("ints")
